@@ -232,14 +232,14 @@ def work_(t):
   confirmed = None
   for rr in P.results:
     rr = dict(rr)
-    if rr['status'] == 'sat' and rr.get('kind', 'core') == 'core':
+    if rr['status'] in ('sat', 'unknown') and rr.get('kind', 'core') == 'core':
       if confirmed is None:
         confirmed = concrete(rp) or False
       if confirmed:
         rr['status'] = 'violation'
         path = write_replay(PID, dict(property=PID, replay=rp, observed=confirmed))
         viol.append(dict(key=f"C10:{kind}:{rr['name'].split('|')[-1][:40]}", what=confirmed, replay=path))
-      else:
+      elif rr['status'] == 'sat':
         rr['status'] = 'spurious'
         rr['note'] = 'candidate counterexample did not reproduce on the real code'
     res.append(rr)
